@@ -214,6 +214,41 @@ pub fn build(tape: &[u32]) -> (Sprite, Plan) {
             s.layers.push(Layer { flags: (i % 128) as u16, kind: LayerKind::Image, level: 0, blend: (i % 19) as u16, opacity: (i % 256) as u8, name: format!("L{}", i % 97), user_data: None });
         }
     }
+    // entity-count stress (counts beyond 8-bit; cheap because the entities are tiny)
+    if t.chance(1, 40) {
+        let n = t.pick(&[255usize, 256, 257, 300, 1000]);
+        let tags = s.tags.get_or_insert_with(Vec::new);
+        while tags.len() < n {
+            let i = tags.len();
+            tags.push(Tag { from: i as u16, to: (i * 3) as u16, dir: (i % 3) as u8, repeat: (i % 5) as u16, name: format!("t{}", i % 50) });
+        }
+    }
+    if t.chance(1, 40) {
+        let n = t.pick(&[255usize, 256, 257, 300]);
+        while s.slices.len() < n {
+            let i = s.slices.len();
+            s.slices.push(Slice { name: format!("s{}", i % 40), flags: (i % 4) as u32, keys: vec![SliceKey { frame: i as u32, x: -(i as i32), y: i as i32, w: i as u32, h: 1, center: (1, 2, 3, 4), pivot: (-5, 6) }], user_data: None });
+        }
+    }
+    if t.chance(1, 40) && !s.slices.is_empty() {
+        let n = t.pick(&[255usize, 256, 257, 300]);
+        let k0 = s.slices[0].keys.first().cloned().unwrap_or(SliceKey { frame: 0, x: 0, y: 0, w: 1, h: 1, center: (0, 0, 0, 0), pivot: (0, 0) });
+        while s.slices[0].keys.len() < n {
+            let mut k = k0.clone();
+            k.frame = s.slices[0].keys.len() as u32;
+            s.slices[0].keys.push(k);
+        }
+    }
+    if t.chance(1, 40) {
+        let n = t.pick(&[255usize, 256, 257, 300]);
+        while s.ext_files.len() < n {
+            let i = s.ext_files.len() as u32;
+            let id = 1_000_000 + i * 7;
+            if s.ext_files.iter().all(|e| e.id != id) {
+                s.ext_files.push(ExtFile { id, name: format!("f{}", i) });
+            }
+        }
+    }
     let plan = build_plan(&mut t);
     (s, plan)
 }
@@ -270,6 +305,7 @@ pub fn check(tape: &[u32]) -> CheckResult {
     lab(s.tilesets.iter().any(|t| t.base_index < 0), "tileset-negative-base", &mut labels);
     lab(s.legacy.is_some() && s.palette.is_none(), "legacy-only-palette", &mut labels);
     lab(s.frames.len() > 1000, "frames>1000", &mut labels);
+    lab(s.tags.as_ref().map_or(false, |t| t.len() > 255) || s.slices.len() > 255 || s.ext_files.len() > 255 || s.slices.iter().any(|x| x.keys.len() > 255), "entity-count>255", &mut labels);
     lab(s.layers.len() > 250, "layers>250", &mut labels);
     lab(s.width > 4096 || s.height > 4096, "canvas>4096", &mut labels);
     {
